@@ -77,8 +77,8 @@ pub fn spec_code(set: u8) -> u8 {
 // NOTE: all flags live in ONE static struct with a non-zero magic field. Separate `static mut X: usize = 0`
 // items were observed to alias, under Kani 0.68, with promoted constants of the same bytes (writing 1 to
 // such a static turned the shared zero-capacity constant of `Vec::new()` into 1).
-struct Stubs { magic: u64, io: bool, save_calls: usize, rec_distance: bool, exp_constant: f64, exp_rows: usize, provider: bool, writer_off: bool, entries: [(u64, u8); 32] }
-static mut ST: Stubs = Stubs { magic: 0x5ca1_ab1e_0dd_ba11, io: false, save_calls: 0, rec_distance: false, exp_constant: -1.0, exp_rows: 0, provider: false, writer_off: false, entries: [(7, b'A'); 32] };
+struct Stubs { magic: u64, io: bool, save_calls: usize, rec_distance: bool, exp_constant: f64, exp_rows: usize, provider: bool, writer_off: bool, counts_lemma: bool, entries: [(u64, u8); 32] }
+static mut ST: Stubs = Stubs { magic: 0x5ca1_ab1e_0dd_ba11, io: false, save_calls: 0, rec_distance: false, exp_constant: -1.0, exp_rows: 0, provider: false, writer_off: false, counts_lemma: false, entries: [(7, b'A'); 32] };
 pub fn stub_io(on: bool) { unsafe { ST.io = on; ST.save_calls = 0; } }
 pub fn stub_io_active() -> bool { unsafe { ST.magic == 0x5ca1_ab1e_0dd_ba11 && ST.io } }
 pub fn record_save() { unsafe { ST.save_calls += 1; } }
@@ -104,3 +104,8 @@ pub fn provided_entry(i: usize) -> (u64, u8) { unsafe { ST.entries[i] } }
 /// switch the alignment writer off (C11.pool only: the writer is C04's subject and its loops dominate the cost)
 pub fn writer_stub(on: bool) { unsafe { ST.writer_off = on; } }
 pub fn writer_stub_active() -> bool { unsafe { ST.writer_off } }
+/// Lemma use (assume-guarantee): `update_counts(false)` is the identity on an array whose stored counts are
+/// exact and that has no empty row -- this is what C06.cnt (update_counts_2x3) decides. A harness that builds
+/// such an array may switch the recount off to keep chained filter passes tractable (C14.wrap only).
+pub fn counts_exact_lemma(on: bool) { unsafe { ST.counts_lemma = on; } }
+pub fn counts_exact_lemma_active() -> bool { unsafe { ST.counts_lemma } }
